@@ -13,13 +13,13 @@ A case is {'op':'vs', 'fmt', 'img':<image spec>, 'sizes':[chunk lengths summing 
 Observation (both sides): after every eat_chunk and after finish()  'exn;virtual_size', joined by '|'.
 """
 import sys, os, random, json
-import gen_insp
+import gen_insp, gen_C07
 sys.path.insert(0, os.path.dirname(os.path.dirname(os.path.abspath(__file__))))
 import imgbuild, insp_obs
 
 ID = 'C07'
-GEN = [('Gen/Insp_Consts.v', gen_insp.generate), ('Gen/Insp_Code.v', gen_insp.generate_code)]
-EQUIV_FILES = []
+GEN = [('Gen/Insp_Consts.v', gen_insp.generate), ('Gen/Insp_Code.v', gen_insp.generate_code), ('Gen/C07_Code.v', gen_C07.generate)]
+EQUIV_FILES = ['Proofs/C07_Equiv.v']
 EXTRACT = 'Extract/C07_x.v'
 SIZED = ['qcow2', 'vhd', 'vhdx', 'vmdk', 'vdi', 'iso', 'luks', 'raw', 'gpt']
 ZERO_FMTS = ('qcow2', 'vhd', 'vhdx', 'vmdk', 'vdi', 'iso')          # the "0 while unknown" clause
@@ -156,7 +156,7 @@ def sized_params(fmt, v, rng, tier):
     if fmt == 'vhd': return dict(size=v, current_size=rng.choice([v, rng.getrandbits(40)]))
     if fmt == 'vdi': return dict(size=v)
     if fmt == 'iso': return dict(blocks=v[0], block_size=v[1], ident={'hex': rng.choice([b'CD001'] * 3 + [b'NSR02', b'NSR03']).hex()},
-                                 system_area=rng.choice(['zero', 'random']))
+                                 system_area=rng.choice(['zero', 'random']), be_consistent=rng.random() < 0.6)
     if fmt == 'luks': return dict(payload_size=v, payload_offset=rng.choice([2, 3, 8, 64, 4096]) if v < 5000 else 2)
     if fmt in ('raw', 'gpt'): return dict(length=v)
     if fmt == 'vmdk':
@@ -189,9 +189,14 @@ def gen_cases(rng, tier):
     for fmt in SIZED:
         vals = imgbuild.size_values(fmt, rng, n_random=4 if quick else 40)
         if fmt == 'vhdx' and quick: vals = rng.sample(vals, 12)
+        forced = []
+        if fmt == 'vhdx':      # full tables: 2046 other entries in front of the wanted one (count 2047), in either table
+            forced = [dict(size=rng.getrandbits(64), region_pad_before=2046, region_pad_after=0),
+                      dict(size=rng.getrandbits(64), meta_pad_before=2046, meta_pad_after=0),
+                      dict(size=rng.getrandbits(64), region_pad_before=rng.randrange(3, 2046), meta_pad_before=rng.randrange(3, 2046))]
         reps = 1 if quick else (3 if fmt == 'vhdx' else 12)
-        for v in vals * reps:
-            spec = {'b': 'build', 'seed': rng.randrange(10**9), 'params': sized_params(fmt, v, rng, tier)}
+        for v in forced + vals * reps:
+            spec = {'b': 'build', 'seed': rng.randrange(10**9), 'params': v if isinstance(v, dict) else sized_params(fmt, v, rng, tier)}
             c0 = {'op': 'vs', 'fmt': fmt, 'img': spec, 'k': 'sized'}
             try:
                 im = image(c0)
